@@ -1,5 +1,6 @@
 import EdpVerif.Lemmas.Receiver
 import EdpVerif.Lemmas.ReceiverRecv
+import EdpVerif.Lemmas.ReceiverBP
 import EdpVerif.Generated.Control
 import EdpVerif.Generated.MiscC19
 import EdpVerif.Generated.MiscState
@@ -582,6 +583,117 @@ theorem C19_stops_only_on_stream_errors (x : Ext) (st : NodeSt) (evs : List Ev) 
   · intro he; rw [he] at h; simp [keepGoing] at h
   · intro he; rw [he] at h; simp [keepGoing] at h
   · intro b he; rw [he] at h; simp [keepGoing] at h
+
+/-! ## bounded mailboxes: a full mailbox delays (and blocks the connection's receiver), it never drops
+
+Everything above appends to mailboxes without bound. A real mailbox is a channel of `DEFAULT_MAILBOX_CAPACITY` messages and
+`route_message` hands a message over with `ProcessHandle::send(..).await` from the connection's ONE receiver task. The
+bounded system is `Impl/ReceiverBP.lean`: schedules of `rx` (the receiver routes the next message it has read, if the form of
+its send lets it) and `take k` (process `k`'s `recv()` returns its oldest message); the form of each arm's send is a
+parameter, read from the source by `srcRouteForms`. -/
+
+open Edp.ReceiverBP in
+/-- **the sends of `route_message` wait for room** (regenerated from node.rs / process.rs on this run): its four deliveries —
+`Regular` for SEND, `Regular` for REG_SEND, `Exit` for the four exit forms, `MonitorExit` — are `handle.send(..).await?`,
+and `ProcessHandle::send` is `mailbox_sender.send(msg).await`; no arm builds a message and hands it to anything else. A
+`try_send`, `send_timeout` or a new handle method at one arm changes the table and breaks this. -/
+theorem C19_route_sends_wait_for_room :
+    (∀ a, srcRouteForms a = .await) ∧
+    (Gen.MAILBOX_DELIVERIES.filter fun e => e.1 = "node.rs" ∧ e.2.1 = "route_message") =
+      [("node.rs", "route_message", "Regular", "send", true, "propagated"),
+       ("node.rs", "route_message", "Regular", "send", true, "propagated"),
+       ("node.rs", "route_message", "Exit", "send", true, "propagated"),
+       ("node.rs", "route_message", "MonitorExit", "send", true, "propagated")] ∧
+    Chan.handleSendForm = .await ∧ Gen.PROCESS_HANDLE_SENDER_METHODS = ["send"] ∧
+    Gen.MAILBOX_DELIVERIES.length = Gen.MAILBOX_MESSAGE_CONSTRUCTIONS ∧ 0 < Gen.MAILBOX_DEFAULT_CAPACITY := by
+  refine ⟨fun a => by cases a <;> decide, by decide, by decide, by decide, by decide, by decide⟩
+
+open Edp.ReceiverBP in
+/-- **a full mailbox delays, it never drops; every routing theorem above holds with bounded mailboxes**: for every capacity,
+every initial node (mailboxes filled to any degree), every sequence of frame bodies the receiver reads and EVERY schedule of
+the receiver task and the processes' `recv()`s — processes that take nothing for as long as the schedule likes included —
+with the send forms of the source: some prefix of the frames has been routed, and for that prefix the history of every
+mailbox (what its process has taken, in order, followed by what is still queued), the names, the outstanding calls and
+their answers are EXACTLY what the unbounded model (`routeAll`, the subject of `C19_send_to_live_process` …
+`C19_mailboxes_only_grow`) gives; the rest of the frames is still to be routed, in order; no send has given up on a
+message. -/
+theorem C19_full_mailbox_delays_never_drops (x : Ext) (cap : Nat) (b0 : BSt) (bodies : List Bytes) (evs : List ReceiverBP.Ev) :
+    let s := runB srcRouteForms cap ⟨b0, bodies.map (classify x T), []⟩ evs
+    ∃ n, n ≤ bodies.length ∧ s.b.total = routeAll x T b0.total (bodies.take n) ∧
+      s.todo = (bodies.drop n).map (classify x T) ∧ s.b.dropped = b0.dropped := by
+  dsimp only
+  obtain ⟨h1, h2, _, _, h5⟩ := runB_await srcRouteForms C19_route_sends_wait_for_room.1 cap evs
+    ⟨b0, bodies.map (classify x T), []⟩
+  simp only [List.length_nil, List.drop_zero, List.nil_append] at h1 h2
+  generalize runB srcRouteForms cap ⟨b0, bodies.map (classify x T), []⟩ evs = s at h1 h2 h5 ⊢
+  have hlen : s.done.length ≤ bodies.length := by
+    have := congrArg List.length h2
+    simp only [List.length_append, List.length_map] at this
+    omega
+  have hd : s.done = (bodies.take s.done.length).map (classify x T) := by
+    have := congrArg (List.take s.done.length) h2
+    rw [List.take_left' rfl] at this
+    rw [List.map_take]
+    exact this
+  have ht : s.todo = (bodies.drop s.done.length).map (classify x T) := by
+    have := congrArg (List.drop s.done.length) h2
+    rw [List.drop_left' rfl] at this
+    rw [List.map_drop]
+    exact this
+  refine ⟨s.done.length, hlen, ?_, ht, h5⟩
+  rw [routeAll_eq_routeRes, ← hd]
+  exact h1
+
+open Edp.ReceiverBP in
+/-- non-vacuity: a mailbox of capacity 1 that is full, an EXIT for its owner, then a SEND-like second EXIT: the receiver is
+suspended until the process takes a message, then both arrive, in order -/
+example :
+    let k : PidKey := ⟨[110], 1, 0, 3⟩
+    let p : PidF := ⟨[110], 1, 0, 3, none⟩
+    let q : PidF := ⟨[120], 7, 0, 1, none⟩
+    let ex (r : Int) : Except RxErr Received :=
+      .ok (.known "Exit" [("from_pid", .term (.pid q)), ("to_pid", .term (.pid p)), ("reason", .term (.int r))], none)
+    let s0 : Sys := ⟨⟨[⟨k, [], [.regular (.int 0)]⟩], [], [], [], []⟩, [ex 1, ex 2], []⟩
+    (runB srcRouteForms 1 s0 [.rx, .rx]).todo.length = 2 ∧
+    (runB srcRouteForms 1 s0 [.rx, .take k, .rx, .rx, .take k, .rx]).todo.length = 0 ∧
+    ((runB srcRouteForms 1 s0 [.rx, .take k, .rx, .rx, .take k, .rx]).b.boxes.map fun b => (b.taken.length, b.queue.length)) =
+      [(2, 1)] := by
+  decide
+
+open Edp.ReceiverBP in
+/-- **head-of-line blocking** (not a violation of the statement — nothing is lost — but worth knowing): when the receiver
+has a message to route and cannot step, it is suspended inside `route_message` on the full mailbox of a live process `k`;
+until `k` takes a message NOTHING further of this connection is routed — messages for other processes, answers to
+outstanding calls and the detection of a closed stream included (`todo` does not change under `rx`). -/
+theorem C19_full_mailbox_blocks_the_receiver (F : Arm → Chan.Form) (cap : Nat) (s : Sys)
+    (h : rxStep F cap s = none) (ht : s.todo ≠ []) :
+    (∃ k msg, s.blockedOn cap = some (k, msg) ∧ cap ≤ s.b.queued k) ∧
+    ∀ n, runB F cap s (List.replicate n .rx) = s := by
+  refine ⟨rxStep_none F cap s h ht, ?_⟩
+  intro n
+  induction n with
+  | zero => rfl
+  | succ n ih =>
+    show runB F cap ((stepB F cap s .rx).getD s) (List.replicate n .rx) = s
+    have : stepB F cap s .rx = none := h
+    rw [this]
+    exact ih
+
+open Edp.ReceiverBP in
+/-- **the parameter matters** (what `try_send` at the exit arm would do): a live process whose mailbox is full at the moment
+an EXIT for it is routed never gets the notification — `route_message` returns an error, the loop logs it and goes on; the
+mailbox history is NOT what `C19_exit_reaches_target` promises. -/
+theorem C19_a_send_that_gives_up_loses_the_notification :
+    ∃ (F : Arm → Chan.Form) (s0 : Sys) (k : PidKey), (∀ a, a ≠ .exit → F a = srcRouteForms a) ∧
+      isLive s0.b.view k = true ∧
+      let s := runB F 1 s0 [.rx, .take k, .take k]
+      s.todo = [] ∧ s.b.dropped.length = 1 ∧ (s.b.boxes.map fun b => (b.taken.length, b.queue.length)) = [(1, 0)] ∧
+      ((mailbox (routeRes s0.b.total s0.todo) k).map List.length) = some 2 :=
+  ⟨fun a => if a = .exit then .trySend else srcRouteForms a,
+    ⟨⟨[⟨⟨[110], 1, 0, 3⟩, [], [.regular (.int 0)]⟩], [], [], [], []⟩,
+      [.ok (.known "Exit" [("from_pid", .term (.pid ⟨[120], 7, 0, 1, none⟩)), ("to_pid", .term (.pid ⟨[110], 1, 0, 3, none⟩)),
+        ("reason", .term (.int 1))], none)], []⟩,
+    ⟨[110], 1, 0, 3⟩, fun a ha => by simp [ha], by decide, by decide⟩
 
 /-- The state the receiver/routing model carries IS the state the node keeps (regenerated from the source on every run):
 registry, connections and the table of outstanding calls (plus name, cookie, creation, the two counters' owners, and the
